@@ -754,6 +754,9 @@ theorem removeAllRec_good (root : Ino) (v : View) : ∀ (fuel : Nat) (s : Store)
               dsimp only
               have hempty : ∀ n x, ¬ Edge s1 c n x := by
                 intro n x h; unfold Edge at h; rw [ihs rfl n] at h; cases h
+              split
+              · -- restricted deletion: the emptied sub-directory stays
+                refine ⟨⟨ihg.wf, ihg.mono, fun x hx => ihg.frame x (fun h => hx (Desc.head he h))⟩, fun h => by cases h⟩
               have hwf2 := RAGood.step_wf hwf he ihg hempty
               obtain ⟨hg, hsucc⟩ := ihL _ hwf2
               obtain ⟨hg', hnm⟩ := RAGood.step he ihg hg
@@ -768,6 +771,9 @@ theorem removeAllRec_good (root : Ino) (v : View) : ∀ (fuel : Nat) (s : Store)
               | true =>
                 obtain ⟨m, ch, hgc⟩ := hr_isDirAt_iff.1 hc
                 exact absurd hgc (hnd m ch)
+            split
+            · -- restricted deletion: the entry stays
+              exact ⟨RAGood.refl d hwf, fun h => by cases h⟩
             have hwf2 := RAGood.step_wf hwf he (RAGood.refl c hwf) (hr_no_edges_of_not_dir hcd)
             obtain ⟨hg, hsucc⟩ := ihL _ hwf2
             obtain ⟨hg', hnm⟩ := RAGood.step he (RAGood.refl c hwf) hg
